@@ -14,8 +14,8 @@
 (*     L  immutable proper list       (list s1 s2)       2 slots           *)
 (*     P  immutable pair              (cons s1 s2)       2 slots           *)
 (*     H  immutable hash map          (hash 'k s1)       1 slot (a value)  *)
-(* L, P and H are connectors: they are immutable, so they can only refer to   *)
-(* nodes that exist when they are made.  The only well-formedness rule is  *)
+(* L, P and H are connectors: they are immutable, so they can only refer   *)
+(* to nodes that exist when they are made.  The only well-formedness rule is  *)
 (* therefore  "an immutable node refers to immutable nodes of smaller      *)
 (* index only" (RefOK) - every cycle passes through a mutable node, and    *)
 (* every such graph can be built in Scheme: allocate the mutable nodes     *)
@@ -50,6 +50,16 @@
 (*         breadth-first UNFOLDING (no identity is consulted, so bisimilar *)
 (*         values get the same code).  Checked: terminates; bisimilar      *)
 (*         nodes hash equal.                                               *)
+(*   EqAsIs  NOT part of the design: the comparison as Steel performs it   *)
+(*         today (one visited set of single identities, none for boxes),   *)
+(*         kept as a named defective machine.  It is run with fuel and     *)
+(*         only labels each pair (tag field asis = ok | wrong | hang), so  *)
+(*         that a failure of equal? is attributed to a known finding only  *)
+(*         where this model says the known defect strikes.  On all 10918   *)
+(*         pairs of the quick space its prediction matched the engine.     *)
+(*   VARIANT (constant) switches Eq / the printer to three broken designs  *)
+(*         (MC_Shapes_cex_*.cfg); TLC must reject each (non-vacuity of     *)
+(*         ModelOK and of the measures).                                   *)
 (*                                                                         *)
 (* (c) The cases.  For every enumerated heap the specification computes    *)
 (* the expectations of the operation matrix                                *)
@@ -68,7 +78,10 @@
 (* overflow, abort) is attributed to the running case.                     *)
 (*                                                                         *)
 (* PART 2 (case matrix driven from this specification): DEPTH AND WIDTH.   *)
-(* Family "deep": operation x shape x depth, tables DeepOps / DeepShapes.  *)
+(* Family "deep": operation x shape x depth (DeepOpNames x DeepShapes x     *)
+(* DEPTHS; list-like shapes also BIGDEPTHS; shapes whose construction is   *)
+(* quadratic are capped, Cap).  Values are built with loops, except the    *)
+(* shapes whose point is deep SOURCE text or deep non-tail recursion.      *)
 (* TLC contributes the product, the Scheme text and the post-state         *)
 (* expectation (the walk to the bottom returns the bottom leaf, the copy   *)
 (* is equal?, the one-leaf mutant is not, the key is found again, the      *)
@@ -521,7 +534,7 @@ Shape(name, pre, mk, down, flat, eqcopy, src) ==
 \* on the value): a map used as key is re-hashed to its full depth at every level; hash-insert in a
 \* (depth 4000: 0.6 s, 10^4: > 20 s with the walk); hash-insert in a loop copies (10^4 entries 3 s,
 \* 4*10^4 entries 46 s).  Their depth is capped.
-Cap(name) == IF name = "hashk" THEN 3000 ELSE IF name = "widehash" THEN 10000 ELSE 1000000
+Cap(name) == IF name \in {"hashk", "widehash"} THEN 3000 ELSE 1000000
 DeepShapes == <<
   Shape("list",    "", Loop("(list bot)", "(cons 0 acc)"),            "(cdr v)",                 TRUE,  TRUE,  ""),
   Shape("cdr",     "", Loop("bot", "(cons 0 acc)"),                   "(cdr v)",                 FALSE, TRUE,  ""),
